@@ -8,7 +8,22 @@ pub fn run_check(prop: &str, thorough: bool, seed: u64) -> Option<Report> {
     if let Some(r) = props::check_history(prop, thorough, seed) {
         return Some(r);
     }
-    None
+    let tier = if thorough { "thorough" } else { "quick" };
+    match prop {
+        "C12" => {
+            let mut rep = Report::new("C12", tier, seed, "sequences of 4-40 nominate / revoke / accept / admin-only-probe / clock steps by 5 principals (the current admin plus 4 fixed accounts), the clock aligned to 7d-1s / 7d / 7d+1s after the latest nomination; the identical sequence runs against the staking and the treasury contract; non-trivial = a re-nomination, revocation or completed handover AND an acceptance attempt by the nominee exactly at or one second before the earliest time; distinct by step-trace hash");
+            rep.assumptions = vec!["staking admin observed through an admin-only probe (FeeWithdraw 0 => authorization error iff not admin) and State.pending_owner; treasury admin through its Config query".into()];
+            rep.absorb(crate::props_treasury::check_c12(if thorough { 200_000 } else { 6_000 }, seed));
+            Some(rep)
+        }
+        "C13" => {
+            let mut rep = Report::new("C13", tier, seed, "treasury instances with allow-lists of 0-5 routes (1-4 hops over 5 denoms, small pool ids so coincidences are common) and 1-25 ops: swaps whose candidate route is an exact copy, prefix, suffix, reversal, concatenation or one-field edit of an allowed route, spends to 8 receiver shapes with/without channel, config updates, by admin/trader/strangers; non-trivial = an accepted swap or a trader's candidate derived from an allowed route and rejected; distinct by op-trace hash");
+            rep.assumptions = vec!["emitted Osmosis messages decoded with the harness's own protobuf reader (field numbers from the upstream .proto)".into()];
+            rep.absorb(crate::props_treasury::check_c13(if thorough { 2_000_000 } else { 40_000 }, seed));
+            Some(rep)
+        }
+        _ => None,
+    }
 }
 
 /// Re-run one saved case with no property library in the loop; prints the failing step.
@@ -48,6 +63,26 @@ pub fn replay(prop: &str, file: &str) -> i32 {
                 0
             }
         };
+    }
+    let mut scratch = Agg::default();
+    let res: Option<Result<(), String>> = match prop {
+        "C12" => serde_json::from_value::<Vec<crate::props_treasury::OwnStep>>(case_v.clone()).ok().map(|c| crate::props_treasury::check_own_case(&c, &mut scratch)),
+        "C13" => serde_json::from_value::<crate::props_treasury::TCase>(case_v.clone()).ok().map(|c| crate::props_treasury::check_tcase(&c, &mut scratch)),
+        "C04" => serde_json::from_value::<crate::props_pure::RateCase>(case_v.clone()).ok().map(|c| crate::props_pure::check_rate_case(&c).map(|_| ())),
+        "C09" => serde_json::from_value::<crate::props_pure::DeriveCase>(case_v.clone()).ok().map(|c| crate::props_pure::check_derive_case(&c).map(|_| ())),
+        _ => None,
+    };
+    match res {
+        Some(Ok(())) => {
+            println!("replay passed: no violation of {prop}");
+            return 0;
+        }
+        Some(Err(m)) => {
+            println!("{m}");
+            println!("VIOLATION property={prop} replay={file}");
+            return 1;
+        }
+        None => {}
     }
     eprintln!("replay format not recognised for {prop}");
     2
